@@ -139,7 +139,15 @@ func equalValue(x, y reflect.Value) bool {
 		iter := x.MapRange()
 		for iter.Next() {
 			vx := iter.Value()
-			vy := y.MapIndex(iter.Key())
+			k := iter.Key()
+			if kt := y.Type().Key(); k.Type() != kt {
+				if k.Kind() != reflect.String || kt.Kind() != reflect.String {
+					return false
+				}
+				// Maps with different string key types (string vs. a named string type).
+				k = k.Convert(kt)
+			}
+			vy := y.MapIndex(k)
 			if !vy.IsValid() || !equalValue(vx, vy) {
 				return false
 			}
